@@ -17,8 +17,8 @@ package pe
 // ---- C12: the verifier accepts a submission only if it equals what matching itself selects ----
 
 //@ func resolveCredential
-//@   prop C12
-//@   assume-benign
+//@   trusted
+//@   benign
 //@   ensures isNilIface(result.1) ==> result.0 != nil
 // Every descriptor id is mapped at most once: a surplus entry for an id cannot be hidden behind a later one.
 //@ func (PresentationSubmission).Resolve
